@@ -172,6 +172,9 @@ def check_doc(case: Dict[str, Any]) -> Tuple[List[Tuple[str, str]], Dict[str, An
                     if f['arg'] and f['tag'] == 'raise' and f['arg'] not in first:
                         why = 'tokens of raise %s are in the row of %r' % (f['arg'], first)
                         break
+                    if f.get('lead') and fmt in ('epytext', 'restructuredtext') and (f['lead'] + toks[0]) not in whole:
+                        why = 'the description was written %r but the row shows %r: leading characters of the text are gone' % (f['lead'] + ' '.join(toks), whole)
+                        break
                     if f.get('type') and not all(t in first for t in f['type']):
                         why = 'type tokens %s are not next to %s (cell %r)' % (f['type'], f['arg'] or f['tag'], first)
                         break
